@@ -29,14 +29,19 @@ def record_kaiser(spec):
         rng = np.random.default_rng(spec["seed"])
         for P in spec["pslls"]:
             for L in spec["Ls"]:
-                N = L if L >= 4096 else 2 * L + 17
+                csd = spec.get("mode", "auto") == "csd"
+                N = L if (L >= 4096 or csd) else 2 * L + 17        # two-channel specs: one segment per evaluation (K = 1)
                 b0 = float(rng.uniform(0.2 * L, 0.3 * L))              # fractional bin position of the sinusoid
                 f0 = b0 / L
                 ph = float(rng.uniform(0, 2 * math.pi))
                 x = np.cos(2 * math.pi * f0 * np.arange(N) + ph)
                 from scipy.signal.windows import kaiser as _spk
                 wparam = {"str": "kaiser", "np": shim, "sp": _spk}[spec.get("winparam", "str")]       # every documented way of asking for the Kaiser window
-                a = speckit.SpectrumAnalyzer(x, 1.0, win=wparam, psll=P, order=-1, olap=0.5, backend=spec["backend"])
+                if csd:
+                    x = np.vstack([x, 0.7 * np.cos(2 * math.pi * f0 * np.arange(N) + ph + 1.1)])
+                a = speckit.SpectrumAnalyzer(x, 1.0, win=wparam, psll=P, order=-1 if not csd else spec.get("order", 0), olap=0.5, backend=spec["backend"])
+                # another analyzer with a different side-lobe level is built before this one computes: analyzers share nothing
+                speckit.SpectrumAnalyzer(x, 1.0, win="kaiser", psll=60 if P != 60 else 140, order=0, backend=spec["backend"])
                 calls.clear()
                 r0 = a.compute_single_bin(f0, L=L)
                 if calls:
@@ -48,7 +53,10 @@ def record_kaiser(spec):
                     ev.append({"t": "call", "psll": int(P), "L": int(L), "M": M, "qbeta": traces.q(beta), "qalpha": traces.q(float(a.config["alpha"])),
                                "wlen": int(round(float(r0.S12[0]) ** 0.5 / max(float(np.sum(w)), 1e-300) * Lw)) if float(np.sum(w)) > 0 else Lw,
                                "sym": traces.q(sym, 2 ** 30), "peak": peak, "rise": int(w[0] < w[1])})
-                p0 = float(r0.ps[0])
+
+                def powers(r):
+                    return (float(r.XX[0]), float(r.YY[0]), float(abs(r.XY[0]))) if csd else (float(r.ps[0]),)
+                p0 = powers(r0)
                 alpha = float(a.config["alpha"])
                 width = math.sqrt(1 + alpha * alpha)
                 offs = [s * (width + d) for s in (-1, 1) for d in spec["deltas"]]
@@ -57,7 +65,7 @@ def record_kaiser(spec):
                     if fb < 1.0 or fb > L / 2 - 1.0:
                         continue
                     r = a.compute_single_bin(fb / L, L=L)
-                    rel = float(r.ps[0]) / p0
+                    rel = max(pv / pk for pv, pk in zip(powers(r), p0))
                     cdb = int(math.ceil(1000 * math.log10(max(rel, 1e-40))))      # centi-dB, rounded up
                     ev.append({"t": "leak", "psll": int(P), "L": int(L), "off100": int(abs(off) * 100), "cdb": cdb, "odd": int(L % 2)})
     finally:
@@ -84,6 +92,10 @@ def run(tier):
             Ls = Ls + [65536]
         specs.append(dict(seed=rnd.randrange(2 ** 31), pslls=ps if tier == "thorough" else ps[::2] + [200], Ls=Ls, deltas=deltas, backend=["numba", "numpy"][k % 2],
                           winparam=["str", "sp", "np", "str"][k % 4]))
+    # two-channel records, one segment per evaluation, many evaluations on the same analyzer (every order on the NumPy and Numba paths)
+    for k in range(4 if tier == "quick" else 16):
+        specs.append(dict(seed=rnd.randrange(2 ** 31), pslls=[60, 120, 200] if k % 2 else [200, 100, 40], Ls=[512, 1000] if k % 2 else [4096, 333], deltas=deltas,
+                          backend=["numpy", "numba"][(k // 2) % 2], winparam="str", mode="csd", order=[0, -1, 1, 2][k % 4]))
     trs = common.pmap(record_kaiser, specs, chunksize=1)
     vd, tres = traces.validate("KaiserTrace", f"{PID}_trace", trs, constants=dict(Pslls=Raw("{40}"), KLs=Raw("{64}")), spec="TSpec")
     V.model(tres, "KaiserTrace.tla (captured Kaiser calls + measured leakage)")
